@@ -22,6 +22,7 @@ import (
 
 	"github.com/dgraph-io/badger/v4/options"
 	"github.com/dgraph-io/badger/v4/pb"
+	"github.com/dgraph-io/badger/v4/vhook"
 	"github.com/dgraph-io/badger/v4/y"
 )
 
@@ -167,6 +168,7 @@ func helpOpenOrCreateManifestFile(dir string, readOnly bool, extMagic uint16,
 			_ = fp.Close()
 			return nil, Manifest{}, err
 		}
+		vhook.IO("ftruncate", path, truncOffset, 0)
 	}
 	if _, err = fp.Seek(0, io.SeekEnd); err != nil {
 		_ = fp.Close()
@@ -224,6 +226,7 @@ func (mf *manifestFile) addChanges(changesParam []*pb.ManifestChange, opt Option
 		if _, err := mf.fp.Write(buf); err != nil {
 			return err
 		}
+		vhook.IO("fwrite", mf.fp.Name(), 0, int64(len(buf)))
 	}
 
 	return syncFunc(mf.fp)
@@ -245,6 +248,7 @@ func helpRewrite(dir string, m *Manifest, extMagic uint16) (*os.File, int, error
 	if err != nil {
 		return nil, 0, err
 	}
+	vhook.IO("fcreate", rewritePath, 0, 0)
 
 	// magic bytes are structured as
 	// +---------------------+-------------------------+-----------------------+
@@ -275,10 +279,12 @@ func helpRewrite(dir string, m *Manifest, extMagic uint16) (*os.File, int, error
 		fp.Close()
 		return nil, 0, err
 	}
+	vhook.IO("fwrite", rewritePath, 0, int64(len(buf)))
 	if err := fp.Sync(); err != nil {
 		fp.Close()
 		return nil, 0, err
 	}
+	vhook.IO("fsync", rewritePath, 0, 0)
 
 	// In Windows the files should be closed before doing a Rename.
 	if err = fp.Close(); err != nil {
@@ -288,6 +294,7 @@ func helpRewrite(dir string, m *Manifest, extMagic uint16) (*os.File, int, error
 	if err := os.Rename(rewritePath, manifestPath); err != nil {
 		return nil, 0, err
 	}
+	vhook.IO("rename", rewritePath+"\x00"+manifestPath, 0, 0)
 	fp, err = y.OpenExistingFile(manifestPath, 0)
 	if err != nil {
 		return nil, 0, err
